@@ -9,7 +9,10 @@ import (
 
 	"pgregory.net/rapid"
 
+	sdkmath "cosmossdk.io/math"
+	sdk "github.com/cosmos/cosmos-sdk/types"
 	banktypes "github.com/cosmos/cosmos-sdk/x/bank/types"
+	transfertypes "github.com/cosmos/ibc-go/v8/modules/apps/transfer/types"
 
 	"verif/harness/kit"
 	"verif/harness/world"
@@ -26,6 +29,11 @@ type caseC06 struct {
 	// Crossed marks a Hyperlane route that names the token of another denomination than the one
 	// the last action leaves: it must be refused.
 	Crossed bool `json:"crossed,omitempty"`
+	// OutDust is an amount of the swap OUTPUT denomination that sits on the orbiter account before
+	// the packet arrives (left by whoever). The sweep clears the received denomination only, so
+	// the module may refuse such a transfer at its balance precondition (a don't-care here); if
+	// it accepts it, exactly the coin left by the last action is forwarded, as always.
+	OutDust string `json:"out_dust,omitempty"`
 }
 
 func runC06(l *world.Lab, c caseC06, rec *kit.Recorder) error {
@@ -41,6 +49,19 @@ func runC06(l *world.Lab, c caseC06, rec *kit.Recorder) error {
 		m := &kit.Machine{W: w, Ctx: ctx, Model: kit.NewState()}
 		if o := m.Do(kit.Step{Env: &kit.Env{Kind: "deposit", User: "carol", Denom: t.Denom, Amount: c.Dust}}); o.Tx.OK() {
 			dust, _ = new(big.Int).SetString(c.Dust, 10)
+		}
+	}
+	if c.OutDust != "" {
+		amt, ok := sdkmath.NewIntFromString(c.OutDust)
+		if !ok {
+			return fmt.Errorf("harness: out_dust %q", c.OutDust)
+		}
+		coins := sdk.Coins{sdk.Coin{Denom: world.SwapDenom, Amount: amt}}
+		if err := w.App.BankKeeper.MintCoins(ctx, transfertypes.ModuleName, coins); err != nil {
+			return fmt.Errorf("harness: %w", err)
+		}
+		if err := w.App.BankKeeper.SendCoinsFromModuleToAccount(ctx, transfertypes.ModuleName, world.OrbiterAddr, coins); err != nil {
+			return fmt.Errorf("harness: %w", err)
 		}
 	}
 	if c.Paused != "" {
@@ -153,6 +174,10 @@ func runC06(l *world.Lab, c caseC06, rec *kit.Recorder) error {
 		}
 		if run.DontCare {
 			rec.Label("c06", "refused (model: don't-care)")
+			return nil
+		}
+		if c.OutDust != "" && run.Denom == world.SwapDenom {
+			rec.Label("c06", "refused: the swap output denomination pre-exists on the account (don't-care)")
 			return nil
 		}
 		return fmt.Errorf("order [%s]: the model accepts the list and no dependency call failed (calls %v), yet the transfer was refused: the listed actions were not applied", order, s.Sites())
@@ -288,6 +313,13 @@ func genC06(t *rapid.T, l *world.Lab) caseC06 {
 	}
 	if kit.Chance(t, "paused", 15) {
 		c.Paused = pick(t, "paused/which", []string{"fee", "swap"})
+	}
+	if kit.Chance(t, "out-dust", 12) {
+		c.OutDust = pick(t, "out-dust/amount", []string{"1", "7", "1000000", amt.String()})
+		rec := c.OutDust
+		if v, ok := new(big.Int).SetString(rec, 10); !ok || v.Sign() <= 0 || v.BitLen() > 200 {
+			c.OutDust = "7"
+		}
 	}
 	return c
 }
